@@ -312,6 +312,11 @@ static void sb_build(void) {
 	}
 #endif
 #if SB_TRACK_OUTPUT
+#if defined(SB_TRACK_OUTPUT2) && SB_B2
+	/* a second track output (board b2) listed BEFORE b1's */
+	{ t_bidib_track_output_state s2; s2.id = sb_str("b2"); s2.cs_state = (t_bidib_cs_state)ND_u8("cs_state2");
+	  SB_PUSH(bidib_track_state.track_outputs, t_bidib_track_output_state, s2); }
+#endif
 	sbw.has_track_output = ND_bool("has_track_output");
 	if (sbw.has_track_output) {
 		t_bidib_track_output_state s; s.id = sb_str("b1"); s.cs_state = (t_bidib_cs_state)ND_u8("cs_state");
